@@ -2,8 +2,8 @@
    these definitions of /repo; tools/srcfacts.py regenerates their normal-form digests on every run (coq/Gen/Src_*.v).
    Statements only. *)
 From Coq Require Import List String.
-From ME Require Import Model.SrcExpected Gen.Src_helpers Gen.Src_retry Gen.Src_poll Gen.Src_throttle Gen.Src_timeout Gen.Src_map Gen.Src_flat_map Gen.Src_cos Gen.Src_sync
-  Proofs.Src_ok_helpers Proofs.Src_ok_retry Proofs.Src_ok_poll Proofs.Src_ok_throttle Proofs.Src_ok_timeout Proofs.Src_ok_map Proofs.Src_ok_flat_map Proofs.Src_ok_cos Proofs.Src_ok_sync.
+From ME Require Import Model.SrcExpected Gen.Src_helpers Gen.Src_retry Gen.Src_poll Gen.Src_throttle Gen.Src_timeout Gen.Src_map Gen.Src_flat_map Gen.Src_cos Gen.Src_sync Gen.Src_event Gen.Src_common
+  Proofs.Src_ok_helpers Proofs.Src_ok_retry Proofs.Src_ok_poll Proofs.Src_ok_throttle Proofs.Src_ok_timeout Proofs.Src_ok_map Proofs.Src_ok_flat_map Proofs.Src_ok_cos Proofs.Src_ok_sync Proofs.Src_ok_event Proofs.Src_ok_common.
 
 (* more_executors/_impl/helpers.py *)
 Theorem c11_source_helpers : Src_helpers.facts = expected_helpers.
@@ -32,6 +32,12 @@ Proof. exact src_cos_ok. Qed.
 (* more_executors/_impl/sync.py *)
 Theorem c11_source_sync : Src_sync.facts = expected_sync.
 Proof. exact src_sync_ok. Qed.
+(* more_executors/_impl/event.py *)
+Theorem c11_source_event : Src_event.facts = expected_event.
+Proof. exact src_event_ok. Qed.
+(* more_executors/_impl/common.py *)
+Theorem c11_source_common : Src_common.facts = expected_common.
+Proof. exact src_common_ok. Qed.
 
 Print Assumptions c11_source_helpers.
 Print Assumptions c11_source_retry.
@@ -42,3 +48,5 @@ Print Assumptions c11_source_map.
 Print Assumptions c11_source_flat_map.
 Print Assumptions c11_source_cos.
 Print Assumptions c11_source_sync.
+Print Assumptions c11_source_event.
+Print Assumptions c11_source_common.
